@@ -43,6 +43,27 @@ def arg_int(e, i):
     raise Inconclusive("argument %d of %r is not an integer" % (i, e))
 
 
+def resolve_link_obligation(prog):
+    """Walk::resolve_link: the link target (relative or absolute) passes through Walk::absolute / canonicalize before it is returned"""
+    rl = prog.method("Walk", "resolve_link")
+    eng_rl = oblig.engine(prog, unroll=0, inline=None, extra=optsum.SUMMARIES)
+    lk = Lazy("link", rl.args[1][1])
+    sv = Lazy("self", rl.args[0][1])
+    rlp = eng_rl.run(rl, args=[sv, lk])
+
+    def resolve_prop(p):
+        if p.status != "return" or not isinstance(p.result, EnumV) or p.result.variant != "Ok":
+            return None
+        tup = p.result.fields.get(0)
+        tgt = tup.fields.get(0) if isinstance(tup, Agg) else None
+        ab = [e for e in p.events if e.kind == "call" and re.search(r"Walk::absolute$|canonicalize$", e.callee)]
+        rdl = called(p, r"read_link$")
+        ok = len(rdl) == 1 and any(e.ret is tgt for e in ab)
+        return z3.BoolVal(bool(ok))
+    return oblig.check_paths(eng_rl, rlp, "resolve_link: the link target (relative or absolute) is made absolute and canonical before it is walked or recorded as visited",
+                             resolve_prop, oblig.fnames(eng_rl), key="resolve_link:canonical", allow=("return", "panic", "diverge"))
+
+
 def run():
     rep = Report(
         "C09", "other",
@@ -185,24 +206,7 @@ def run():
 
     # ---- resolve_link: the target that is walked / recorded as visited is always brought to canonical absolute form -----------
     try:
-        rl = W("resolve_link")
-        eng_rl = oblig.engine(prog, unroll=0, inline=None, extra=optsum.SUMMARIES)
-        lk = Lazy("link", rl.args[1][1])
-        sv = Lazy("self", rl.args[0][1])
-        rlp = eng_rl.run(rl, args=[sv, lk])
-
-        def resolve_prop(p):
-            if p.status != "return" or not isinstance(p.result, EnumV) or p.result.variant != "Ok":
-                return None
-            tup = p.result.fields.get(0)
-            tgt = tup.fields.get(0) if isinstance(tup, Agg) else None
-            ab = [e for e in p.events if e.kind == "call" and re.search(r"Walk::absolute$|canonicalize$", e.callee)]
-            rdl = called(p, r"read_link$")
-            ok = len(rdl) == 1 and any(e.ret is tgt for e in ab)
-            return z3.BoolVal(bool(ok))
-        o = oblig.check_paths(eng_rl, rlp, "resolve_link: the link target (relative or absolute) is made absolute and canonical before it is walked or recorded as visited",
-                              resolve_prop, oblig.fnames(eng_rl), key="resolve_link:canonical", allow=("return", "panic", "diverge"))
-        finish(o, "link")
+        finish(resolve_link_obligation(prog), "link")
     except Inconclusive as e:
         from common import Obligation
         o = Obligation("resolve_link", "E2 mirsym/z3")
